@@ -26,12 +26,19 @@ func featsweep(args []string) {
 	out := fs.String("out", "trace.ndjson", "")
 	casesOut := fs.String("cases-out", "", "")
 	workers := fs.Int("workers", runtime.NumCPU(), "")
+	caseSeed := fs.Int64("case-seed", 0, "replay: run the one history generated from this case seed (as recorded in a replay file)")
 	_ = fs.Parse(args)
 
 	fsets := drive.AllFeatureSets()
 	var cases []drive.Case
+	if *caseSeed != 0 {
+		*n = 1
+	}
 	for h := 0; h < *n; h++ {
 		cs := *seed*1000003 + int64(h)
+		if *caseSeed != 0 {
+			cs = *caseSeed
+		}
 		ops := drive.NewGen(cs, "l1").History(*length)
 		for _, f := range fsets {
 			cases = append(cases, drive.Case{N: len(cases) + 1, Seed: cs, Scale: *scale, Ops: ops, Group: h + 1,
